@@ -197,12 +197,16 @@ func (c *Case) Exec(t *eng.T) {
 			return
 		}
 		k := res.Integer()
-		src = "{{ 1 + " + expr + " }}|{{ " + expr + " * 2 }}|{{ 10 - " + expr + " }}|{% if not " + expr + " %}z{% else %}nz{% endif %}|{{ \"x\" + " + expr + " }}"
+		src = "{{ 1 + " + expr + " }}|{{ " + expr + " * 2 }}|{{ 10 - " + expr + " }}|{% if not " + expr + " %}z{% else %}nz{% endif %}|{{ \"x\" + " + expr + " }}|{{ -" + expr + " }}|{{ 3 < " + expr + " }}|{{ - " + expr + " + 1 }}"
 		nz := "nz"
 		if k == 0 {
 			nz = "z"
 		}
-		want = fmt.Sprintf("%d|%d|%d|%s|x%d", 1+k, k*2, 10-k, nz, k)
+		lt := "False"
+		if 3 < k {
+			lt = "True"
+		}
+		want = fmt.Sprintf("%d|%d|%d|%s|x%d|%d|%s|%d", 1+k, k*2, 10-k, nz, k, -k, lt, -k+1)
 	}
 	src = "{% autoescape off %}" + src + "{% endautoescape %}"
 	out := px.Render(nil, src, ctx)
@@ -395,7 +399,7 @@ func init() {
 	eng.Register(&eng.Check{
 		ID:    "C19",
 		Title: "Filters are applied in written order, everywhere filters can be written",
-		Rule: "bounded-exhaustive: every chain up to the length bound over the filter-call alphabet, on every input, at every expression position and in the filter tag, rendered by the real engine and compared with the direct left-to-right composition of the public ApplyFilter on the same values (value, truthiness, iteration, error-ness); every registered filter (registry hook) once per route; unregistered names at every position must fail (at compile time; in the filter tag at the latest at execution); a second registration must be refused. All cases non-trivial; combinations on which ApplyFilter itself panics are skipped (C01).",
+		Rule:  "bounded-exhaustive: every chain up to the length bound over the filter-call alphabet, on every input, at every expression position and in the filter tag, rendered by the real engine and compared with the direct left-to-right composition of the public ApplyFilter on the same values (value, truthiness, iteration, error-ness); every registered filter (registry hook) once per route; unregistered names at every position must fail (at compile time; in the filter tag at the latest at execution); a second registration must be refused. All cases non-trivial; combinations on which ApplyFilter itself panics are skipped (C01).",
 		Assumptions: []string{
 			"the oracle is the implementation's own ApplyFilter (the property states exactly this equivalence); what each filter computes is C17/C18",
 			"rendered under autoescape off so that printing does not add escaping",
